@@ -14,7 +14,7 @@ from typing import Dict, List, Optional, Tuple
 import common
 import spec as S
 
-GEN_VERSION = "26"
+GEN_VERSION = "31"
 
 STRUM_DERIVES = ["EnumString", "Display", "AsRefStr", "IntoStaticStr", "VariantNames", "EnumIter", "EnumCount", "FromRepr",
                  "VariantArray", "EnumDiscriminants", "EnumIs", "EnumTryAs", "EnumMessage", "EnumProperty", "EnumTable",
@@ -51,8 +51,12 @@ class V:
 
     def render(self) -> str:
         lines = []
+        for r in getattr(self, "pre_lines", []) or []:
+            lines.append("    " + r)
         for d in self.docs:
             lines.append("    ///" + d)
+        for r in getattr(self, "mid_lines", []) or []:
+            lines.append("    " + r)
         if getattr(self, "attrs_after_raw", False):
             for r in self.raw_attrs:
                 lines.append("    " + r)
@@ -475,11 +479,17 @@ def family_placeholders(start: int) -> List[E]:
         [("NamedSwap", "named", [("a", "u8"), ("b", "u8")], "{b} then {a}"), ("NamedTwice", "named", [("a", "u8"), ("b", "u8")], "{a}{a}"), ("NamedSpec", "named", [("w", "u8"), ("h", "i32")], "rect {w:>3}x{h:+}"),
          ("NamedEsc", "named", [("a", "u8")], "{{a}}={a}"), ("NamedFixed", "named", [("a", "u8")], "fixed {{}} name"), ("Unit", "unit", [], "plain unit")],
         [("Width", "tuple", ["u8", "usize"], "{0:>1$}"), ("Dbg", "tuple", ["u8", "Txt"], "{1:?}/{0:#x}"), ("Last", "tuple", ["Txt", "u8", "u8"], "{2}-{1}-{0}")],
+        # multi-byte text before, between and after placeholders; escaped braces that look like placeholders next to real ones
+        [("Quoted", "tuple", ["u8"], "\u201c{0}\u201d"), ("Temp", "named", [("t", "u8")], "\u6e29\u5ea6{t}\u00b0"), ("Arrow", "tuple", ["u8", "u8"], "\u2192{1}\u2190\u00df{0:>3}"),
+         ("EscSame", "tuple", ["u8"], "{{0}} = {0}"), ("EscSpec", "tuple", ["u8", "Txt"], "{1:>4}|{{1:>4}}|{0:03}"), ("EscNamed", "named", [("a", "u8")], "{{a}}{a}{{a}}")],
     ]
     dvs = [V("Known", attrs=[["to_string = %s" % rstr("known")]]), V("Unknown", "tuple", [(None, "Txt")], attrs=[["default", "to_string = %s" % rstr("unknown({0})")]])]
     out.append(E("Plh%04d" % (start + 60), "placeholders", ["Display", "EnumString"], dvs, std_derives=["Clone", "Debug"]))
     dvs = [V("Known", attrs=[["to_string = %s" % rstr("known")]]), V("Other", "named", [("raw", "Txt")], attrs=[["to_string = %s" % rstr("other[{raw:>5}]"), "default"]])]
     out.append(E("Plh%04d" % (start + 61), "placeholders", ["Display", "EnumString"], dvs, std_derives=["Clone", "Debug"]))
+    evs = [V("Blank", attrs=[["to_string = %s" % rstr("")]]), V("BlankT", "tuple", [(None, "u8")], attrs=[["serialize = %s" % rstr("")]]),
+           V("BlankN", "named", [("a", "u8")], attrs=[["to_string = %s" % rstr(""), "serialize = %s" % rstr("bn")]]), V("Full", attrs=[["to_string = %s" % rstr("full")]])]
+    out.append(E("Plh%04d" % (start + 62), "placeholders", ["Display", "AsRefStr"], evs, std_derives=["Clone", "Debug"]))
     ser_sets = [("SerNamed", "named", [("sat", "u8")], ['serialize = "s"', 'serialize = "sat={sat:03}%"']), ("SerTuple", "tuple", ["u8", "u8"], ['serialize = "{1}/{0} long"', 'serialize = "t"']),
                 ("SerFixed", "tuple", ["u8"], ['serialize = "fixed one"', 'serialize = "f"']), ("SerUnit", "unit", [], ['serialize = "unit name"'])]
     vs = []
@@ -644,7 +654,9 @@ def family_idlen(start: int) -> List[E]:
             if len(set(cased)) != len(cased) or "" in cased:
                 continue
             attrs = [["serialize_all = %s" % rstr(style)]] if style else []
-            out.append(E("Idl%04d" % eid, "idlen", ["VariantNames", "Display", "EnumString", "AsRefStr", "IntoStaticStr"], [V(n) for n in names], attrs=attrs))
+            e_ = E("Idl%04d" % eid, "idlen", ["VariantNames", "Display", "EnumString", "AsRefStr", "IntoStaticStr", "EnumMessage", "EnumProperty", "EnumIs", "EnumCount"], [V(n) for n in names], attrs=attrs)
+            e_.no_foreign_attrs = True      # no variant carries any attribute or doc comment at all
+            out.append(e_)
             eid += 1
             out.append(E("Idl%04d" % eid, "idlen", ["EnumString", "Display"], [V(n) for n in names], attrs=attrs + [["ascii_case_insensitive"]]))
             eid += 1
@@ -684,6 +696,12 @@ def family_shared_values(start: int) -> List[E]:
           V("Sorted4", attrs=[["props(a = 1, b = 2, c = 3, d = 4)"]]), V("Three", attrs=[["props(c = 3, b = 2, a = 1)"]])]
     out.append(E("Shv%04d" % eid, "shared_values", ["EnumProperty"], vs))
     eid += 1
+    # the same keys and the same literal *text* with different literal types; identical property sets on several variants
+    vs = [V("AsText", attrs=[["props(code = %s, active = %s)" % (rstr("10"), rstr("true"))]]), V("AsValue", attrs=[["props(code = 10, active = true)"]]),
+          V("Same1", attrs=[["props(code = 10, active = true)"]]), V("Same2", "tuple", [(None, "u8")], attrs=[["props(code = 10, active = true)"]]),
+          V("Swapped", attrs=[["props(active = true, code = 10)"]]), V("NoProps")]
+    out.append(E("Shv%04d" % eid, "shared_values", ["EnumProperty", "EnumIter"], vs))
+    eid += 1
     # serializations that share a long prefix (case-sensitive, custom error) / a long suffix
     for k, (pre, suf, extra) in enumerate([("app.user.", "", []), ("", "_changed_event", []), ("color_", "", [["ascii_case_insensitive"]])]):
         vs = [V(n, attrs=[["serialize = %s" % rstr(pre + n.lower() + suf)]]) for n in ["Created", "Deleted", "Renamed", "Banned"]]
@@ -695,6 +713,107 @@ def family_shared_values(start: int) -> List[E]:
         out.append(E("Shv%04d" % eid, "shared_values", ["EnumString", "Display"], [V(v.name, "unit", [], [list(a) for a in v.attrs]) for v in vs] + [V("Other", "tuple", [(None, "Txt")], attrs=[["default"]])],
                      attrs=extra, std_derives=["Clone", "Debug", "PartialEq"]))
         eid += 1
+    return out
+
+
+FOREIGN_ATTRS = ["#[doc(hidden)]", "#[allow(dead_code)]", "#[doc(alias = \"al\")]", "#[cfg(all())]", "#[allow(clippy::all)]"]
+
+
+def inject_foreign_attributes(es: List[E]):
+    """Attributes that are none of strum's business, written before / between the documentation and the #[strum(..)]
+    attributes of every third variant (non-string `doc` attributes in particular): what a derive reads from a variant must not
+    depend on them or on their position. Enums whose discriminant enum copies attributes (EnumDiscriminants) keep theirs."""
+    for e in es:
+        if "EnumDiscriminants" in e.derives or e.family in ("big", "big_phf") or getattr(e, "no_foreign_attrs", False):
+            continue
+        h = sum(ord(c) for c in e.name)
+        for j, v in enumerate(e.variants):
+            k = (h + j) % 9
+            if k == 0:
+                v.pre_lines = [FOREIGN_ATTRS[(h + j) % len(FOREIGN_ATTRS)]]
+            elif k == 3:
+                v.mid_lines = [FOREIGN_ATTRS[(h + 2 * j) % len(FOREIGN_ATTRS)]]
+            elif k == 6:
+                v.pre_lines = ["#[doc(hidden)]"]
+                v.mid_lines = ["#[doc(alias = \"x%d\")]" % j]
+
+
+def attribute_layout_twins(es: List[E]) -> List[E]:
+    """Metamorphic dimension: the same enum with its #[strum(..)] attributes laid out differently -- every key in an attribute
+    of its own, all keys of an item merged into one attribute, the attributes in reverse order, enum-level attributes likewise.
+    What the oracle expects is read from the laid-out definition itself, so any order-, first/last- or adjacency-dependence of the
+    attribute parser shows up as a disagreement."""
+    import copy as _copy
+    out = []
+    pick = [e for e in es if e.family in ("strings", "unit_strings", "messages", "try_as", "err_combos", "style_ci", "iter_unit", "shared_values", "placeholders")
+            and not e.phf and not e.twin_of and not e.only_std]
+    for n, e in enumerate(pick):
+        if n % 3:
+            continue
+        mode = ("split", "merge", "reverse")[(n // 3) % 3]
+
+        def lay(groups: List[List[str]]) -> List[List[str]]:
+            groups = [list(g) for g in groups if g]
+            if mode == "split":
+                return [[k] for g in groups for k in g]
+            if mode == "merge":
+                return [[k for g in groups for k in g]] if groups else []
+            return list(reversed(groups))
+        e2 = _copy.copy(e)
+        e2.name = e.name + {"split": "S", "merge": "M", "reverse": "R"}[mode]
+        e2.family = "attr_layout"
+        e2.attrs = lay(e.attrs)
+        e2.variants = []
+        for v in e.variants:
+            v2 = _copy.copy(v)
+            v2.attrs = lay(v.attrs)
+            if mode == "reverse" and v.docs and not v.docs_after:
+                v2.docs, v2.docs_after = [], list(v.docs)          # documentation after the attributes
+            e2.variants.append(v2)
+        if getattr(e, "module_override", None):
+            e2.module_override = None
+        out.append(e2)
+    return out
+
+
+def family_names_edge(start: int) -> List[E]:
+    """Family C3: identifiers and explicit spellings at the edges of the naming rules: an explicit spelling equal to the
+    identifier itself (the usual way to exempt one variant from serialize_all), identifiers beginning with `r` / `R` / `r#`-like
+    prefixes, single letters, and spellings whose alphabetical and length orders disagree (the preferred name is the *longest*
+    serialize)."""
+    out = []
+    eid = start
+    for style in [None, "snake_case", "SCREAMING_SNAKE_CASE", "kebab-case", "camelCase", "lowercase", "UPPERCASE"]:
+        attrs = [["serialize_all = %s" % rstr(style)]] if style else []
+        vs = [V("BrightWhite", attrs=[["serialize = %s" % rstr("BrightWhite")]]), V("MidGray", attrs=[["to_string = %s" % rstr("MidGray")]]),
+              V("DarkBlack"), V("rax"), V("r8"), V("read_only"), V("rrStrict"), V("Rust"), V("R"), V("r"),
+              V("Control", attrs=[["serialize = %s" % rstr("control"), "serialize = %s" % rstr("ctrl")]]),
+              V("Delete", attrs=[["serialize = %s" % rstr("del"), "serialize = %s" % rstr("backspace"), "serialize = %s" % rstr("bksp")]]),
+              V("Tie", attrs=[["serialize = %s" % rstr("bb"), "serialize = %s" % rstr("aa")]])]
+        st = S.STYLE_TABLE[style] if style else None
+        cased = [S.case(v.name, st) for v in vs if not v.attrs]
+        if len(set(cased)) != len(cased):
+            # styles that merge `R` and `r`: drop the single letters
+            vs = [v for v in vs if v.name not in ("r",)]
+        out.append(E("Nme%04d" % eid, "names_edge", ["VariantNames", "Display", "EnumString", "AsRefStr", "IntoStaticStr", "EnumMessage"], vs, attrs=attrs))
+        eid += 1
+    return out
+
+
+def family_same_name(start: int) -> List[E]:
+    """Family B6: two enums with the same name in two modules of one crate, with different variant lists and different disabled
+    sets: whatever a derive computes is a function of the enum it is applied to, not of its name."""
+    out = []
+    for k, ders in enumerate([["EnumIter", "EnumCount", "VariantArray", "VariantNames"], ["EnumIs", "EnumTryAs", "EnumString", "Display"], ["EnumTable", "FromRepr", "EnumProperty", "EnumMessage"]]):
+        legacy = ("pub mod legacy { use crate::prelude::*;\n#[derive(Clone, Debug, PartialEq, %s)]\n"
+                  "#[cfg_attr(feature = \"renamed\", strum(crate = \"crate::reexp::strum_renamed\"))]\n"
+                  "pub enum Mode { Off, On, #[strum(disabled)] Auto } }" % ", ".join(ders))
+        tup = k == 1
+        vs = [V("Off"), V("On"), V("Auto", "tuple", [(None, "u8")]) if tup else V("Auto"), V("Eco", attrs=[["disabled"]]), V("Max")]
+        e = E("Mode", "same_name", ders, vs, std_derives=["Clone", "Debug", "PartialEq"])
+        e.module_override = "samename%d" % (start + k)
+        e.prelude = legacy
+        out.append(e)
     return out
 
 
@@ -867,7 +986,8 @@ def disabled_set(n: int, pl: str) -> set:
 def family_messages(rng: random.Random, start: int, count: int) -> List[E]:
     """Family D: messages, detailed messages, docs, props."""
     out = []
-    doc_sets = [[], [" One line."], ["No leading space"], [" First", " Second"], [" a", "", "  two spaces", "\ttab"], [" quote \" and \\ backslash"], ["", ""], [" é unicode"]]
+    doc_sets = [[], [" One line."], ["No leading space"], [" First", " Second"], [" a", "", "  two spaces", "\ttab"], [" quote \" and \\ backslash"], ["", ""], [" é unicode"],
+                [""], [" "], ["", " after an empty first line"]]
     prop_sets = [
         [],
         [['a = "x"']],
@@ -945,6 +1065,8 @@ def family_discriminants(rng: random.Random, start: int) -> List[E]:
         ([["allow(dead_code)", "derive(IntoStaticStr, AsRefStr)", "strum(prefix = \"d_\")"]], "pub"),
         ([["derive(Display, EnumString)", "strum(serialize_all = \"kebab-case\")", "strum(ascii_case_insensitive)"]], "pub"),
         ([["derive(Display, EnumString, VariantNames)"], ["strum(serialize_all = \"SCREAMING_SNAKE_CASE\")"], ["strum(prefix = \"x/\")", "allow(dead_code)", "allow(unused)"]], "pub"),
+        ([["derive(EnumString, Display)", "strum(serialize_all = \"snake_case\")"], ["strum(parse_err_ty = DscErr, parse_err_fn = dsc_err)"]], "pub"),
+        ([["derive(EnumString)"], ["strum(ascii_case_insensitive)"], ["strum(serialize_all = \"kebab-case\")", "strum(prefix = \"k:\")"]], "pub"),
         # the source enum's own visibility, without a vis(..) override
         ([], "pub(crate)"),
         ([["derive(EnumIter)"]], "pub(super)"),
@@ -957,8 +1079,15 @@ def family_discriminants(rng: random.Random, start: int) -> List[E]:
             vs[1].raw_attrs = ["#[strum_discriminants(strum(serialize = \"tuple-one\"))]"]
         if ci == 1:
             vs[2].raw_attrs = ["#[strum_discriminants(strum(to_string = \"rec\"))]"]
+            # a #[strum(..)] attribute of the source variant written *before* the pass-through
+            vs[1].attrs = [["to_string = \"tuple one\""]]
+            vs[1].raw_attrs = ["#[strum_discriminants(strum(serialize = \"t-one\", serialize = \"t1\"))]"]
+            vs[4].mid_lines = ["#[allow(dead_code)]"]
+            vs[4].raw_attrs = ["#[strum_discriminants(strum(to_string = \"the-last\"))]"]
         vs[0].docs = [" doc on a variant"]
         e = E("Dsc%04d" % eid, "discriminants", ["EnumDiscriminants"], vs, disc_attrs=dattrs, vis=vis)
+        if any("DscErr" in m for a in dattrs for m in a):
+            e.prelude = "#[derive(Debug, PartialEq)] pub struct DscErr(pub Txt);\npub fn dsc_err(s: &str) -> DscErr { DscErr(Txt::from(s)) }"
         out.append(e)
         eid += 1
     # explicit discriminants + repr are mirrored
@@ -1051,6 +1180,10 @@ def generate(tier: str, seed: int) -> List[E]:
     es += family_idlen(1)
     es += family_snake_collisions(1)
     es += family_shared_values(1)
+    es += family_names_edge(1)
+    es += family_same_name(1)
+    es += attribute_layout_twins(es)
+    inject_foreign_attributes(es)
     if tier == "thorough":
         ids = all_short_identifiers(5)
         big = family_casing(rng, 5000, ids, [s for s in S.DOCUMENTED_STYLES], per_enum=24)
@@ -1077,7 +1210,7 @@ N_SHARDS = 12
 
 
 def module_name(e: E) -> str:
-    return e.name.lower() + ("_phf" if e.phf else "")
+    return (getattr(e, "module_override", None) or e.name.lower()) + ("_phf" if e.phf else "")
 
 
 def write_if_changed(path: str, content: str):
